@@ -306,6 +306,13 @@ theorem slice_positions_inside_none_dropped (xs : List Val) (a b c : Option Int)
     (∀ i, i ∈ idx → i < xs.length) ∧ (pick xs idx).length = idx.length ∧ idx.length ≤ xs.length :=
   ⟨sliceIndices_mem_lt _ _ _ _ _ h, pick_slice_length_eq xs a b c idx h, sliceIndices_length_le _ _ _ _ _ h⟩
 
+/-- **the `j`-th element any slice returns is the element at the `j`-th position `slice.indices` selected** — with
+    `slice_positions_inside_none_dropped` this determines the result of every slice read from the position list alone -/
+theorem slice_elements_are_the_selected_positions (xs : List Val) (a b c : Option Int) (idx : List Nat)
+    (h : sliceIndices xs.length a b c = .ok idx) (j : Nat) (hj : j < idx.length) :
+    (pick xs idx)[j]? = xs[idx[j]]? :=
+  slice_getElem xs a b c idx h j hj
+
 /-- non-vacuity: `[::-2]`, `[-100:100]`, `[5:1]` on three elements all succeed -/
 example : ((sliceIndices 3 none none (some (-2))).toOption.isSome ∧ (sliceIndices 3 (some (-100)) (some 100) none).toOption.isSome ∧
     (sliceIndices 3 (some 5) (some 1) none).toOption.isSome) := by decide +kernel
